@@ -53,4 +53,30 @@ ClassPattern(c, n) ==
 ClassPatterns(n) == {ClassPattern(c, n) : c \in 0..4}
 
 PadLen(n, m) == (m - (n % m)) % m     \* bits to add to reach a multiple of m
+
+(* ---- arithmetic on equal-length bit patterns (no integers involved) ------- *)
+RECURSIVE BLessAt(_, _, _)
+BLessAt(a, b, i) == IF i > Len(a) THEN FALSE
+                    ELSE IF a[i] < b[i] THEN TRUE ELSE IF a[i] > b[i] THEN FALSE ELSE BLessAt(a, b, i + 1)
+BLess(a, b) == BLessAt(a, b, 1)
+
+RECURSIVE BSubR(_, _, _, _, _)
+BSubR(a, b, i, borrow, acc) ==
+    IF i = 0 THEN acc
+    ELSE LET t == a[i] - b[i] - borrow IN
+         IF t < 0 THEN BSubR(a, b, i - 1, 1, <<t + 2>> \o acc) ELSE BSubR(a, b, i - 1, 0, <<t>> \o acc)
+BSub(a, b) == BSubR(a, b, Len(a), 0, <<>>)          \* a - b, requires a >= b
+
+RECURSIVE BAddR(_, _, _, _, _)
+BAddR(a, b, i, carry, acc) ==
+    IF i = 0 THEN <<carry>> \o acc                   \* one bit longer than the operands
+    ELSE LET t == a[i] + b[i] + carry IN BAddR(a, b, i - 1, t \div 2, <<t % 2>> \o acc)
+BAdd(a, b) == BAddR(a, b, Len(a), 0, <<>>)
+
+(* widen / narrow a pattern on the left *)
+ZeroExtend(bs, n) == IF Len(bs) >= n THEN bs ELSE Zeros(n - Len(bs)) \o bs
+LowBits(bs, n) == SubSeq(bs, Len(bs) - n + 1, Len(bs))
+RECURSIVE LeadingZeros(_, _)
+LeadingZeros(bs, i) == IF i > Len(bs) \/ bs[i] = 1 THEN i - 1 ELSE LeadingZeros(bs, i + 1)
+SignificantBits(bs) == Len(bs) - LeadingZeros(bs, 1)    \* bit length of the value
 =============================================================================
